@@ -72,8 +72,7 @@ def slots(prog, run):
             st = pm.get(c)
             tgt = st.targets[0] if isinstance(st, ast.Assign) and len(st.targets) == 1 else None
             if not (isinstance(lst, (ast.List, ast.Tuple, ast.Name)) and isinstance(tgt, (ast.Tuple, ast.List))):
-                run.ob("R-slots", m.qual, "filtered tables return to their variables", None, f"`{astq.src(st if st is not None else c, 80)}`: list literal / tuple target not recognised", file=f, node=c, config=f"call#{n}")
-                continue
+                continue        # not the unpack-back form (returned directly, indexed, ...): the value-provenance rule below decides those
             # the list elements as written where the list was built (names), not their expansions
             lst_names = None
             if isinstance(lst, (ast.List, ast.Tuple)):
@@ -97,7 +96,6 @@ def slots(prog, run):
                     lst_names = [astq.src(e) for e in found.value.elts]
             tg_names = [astq.src(e) for e in tgt.elts]
             if lst_names is None:
-                run.ob("R-slots", m.qual, "filtered tables return to their variables", None, f"list argument `{astq.src(lst, 50)}` not traced to a literal", file=f, node=c, config=f"call#{n}")
                 continue
             ok = lst_names == tg_names
             run.ob("R-slots", m.qual, "filtered tables return to their variables", ok,
@@ -134,6 +132,101 @@ def _helper_slots(prog, run, m, f, pm, c, r):
     return 1
 
 
+POLE_FUNCS = {"pyoma2.functions.ssi.SSI_poles": "poles", "pyoma2.functions.plscf.pLSCF_poles": "poles"}
+FIELD_ROLE = {"Fn_poles": "Fn", "Xi_poles": "Xi", "Phi_poles": "Phi", "Lambds": "Lambds", "Fn_poles_cov": "Fn_cov", "Xi_poles_cov": "Xi_cov", "Phi_poles_cov": "Phi_cov"}
+
+
+def _role_of(name):
+    n = (name or "").lower()
+    cov = "cov" in n or "var" in n
+    for stem, role in (("fn", "Fn"), ("xi", "Xi"), ("phi", "Phi"), ("lam", "Lambds")):
+        if n.startswith(stem) or n.startswith("_" + stem):
+            return role + ("_cov" if cov and role != "Lambds" else "")
+    return None
+
+
+def make_me(prog, ci, cq, method, unc):
+    hc = TDct({"conj": TC(True, {"hc:conj"})}, src="hc")
+    rp = TObj({"br": TC(10), "method": TC(method if "ssi" in cq else None), "ref_ind": TC(None), "ordmin": TC(0), "ordmax": TC(20), "step": TC(1),
+               "sc": TDct({}, src="sc"), "hc": hc, "calc_unc": TC(unc), "nb": TC(100), "nxseg": TC(1024), "method_SD": TC(method), "pov": TC(0.5)})
+    data = T({"data"})
+    if cq.endswith("_MS"):
+        data = TLst([TDct({"ref": T({"data"}), "mov": T({"data"})}), TDct({"ref": T({"data"}), "mov": T({"data"})})])
+    return TObj({"data": data, "fs": T({"fs"}), "dt": T({"fs"}), "run_params": rp, "result": TC(None), "name": TC("a")}, ci)
+
+
+def slot_provenance(prog, run, rule, classes=None):
+    """every pole table stored in the result holds the numbers of the table of the SAME kind returned by the pole routine (frequency
+    table in Fn_poles, frequency variances in Fn_poles_cov, ...): value provenance followed through the criteria, the masking and
+    any helper, masks and positions computed FROM a table do not count as that table"""
+    for cq, method, unc in (classes or CLASSES):
+        ci = prog.cls(cq)
+        cfg = f"{ci.node.name}[method={method},calc_unc={unc}]"
+        runf = prog.find_method(ci, "run")
+        f = rel(prog.mods[runf.mod].path)
+        ti = TaintInterp(prog)
+        ti.ret_tags = dict(POLE_FUNCS)
+        res = ti.call_function(runf, [], {}, bound=make_me(prog, ci, cq, method, unc))
+        if not isinstance(res, TObj):
+            run.ob(rule, runf.qual, "result", None, f"run() did not evaluate to a result object ({res!r})"[:160], file=f, config=cfg)
+            continue
+        # position of each kind in the return of the pole routine that was called
+        called = [q for q, env, node in ti.call_log if q in POLE_FUNCS]
+        pos_of = {}
+        for q in called[:1]:
+            pf = prog.functions[q]
+            for r in ast.walk(pf.node):
+                if isinstance(r, ast.Return) and isinstance(r.value, ast.Tuple):
+                    for k, el in enumerate(r.value.elts):
+                        role = _role_of(el.id) if isinstance(el, ast.Name) else None
+                        if role:
+                            pos_of.setdefault(role, k)
+        if not pos_of:
+            run.ob(rule, runf.qual, "pole routine", None, "the routine that computes the pole tables was not reached / its return is not a tuple of named tables", file=f, config=cfg)
+            continue
+        for field, role in FIELD_ROLE.items():
+            v = res.attrs.get(field)
+            if v is None or (isinstance(v, TC) and v.v is None) or role not in pos_of:
+                continue
+            got = sorted(int(l.split(":")[2]) for l in labels(v) if l.startswith("val:poles:"))
+            want = pos_of[role]
+            inv = {k: r_ for r_, k in pos_of.items()}
+            names = [inv.get(k, f"#{k}") for k in got]
+            ok = got == [want]
+            run.ob(rule, runf.qual, f"result.{field} holds the {role} table of the pole routine", ok,
+                   f"values come from returned table(s) {names}" + ("" if ok else f" - expected {role}: tables change places on the way into the result ({cfg})"),
+                   witness=f"{field}<-{names}", file=f, node=runf.node, config=cfg)
+
+
+def labels_final(prog, run, rule, classes=None):
+    """the stability labels are computed from the pole tables AS STORED in the result: the frequency / damping / shape tables handed to
+    SC_apply carry the same set of criteria as result.Fn_poles / Xi_poles / Phi_poles (a criterion applied after the labelling leaves
+    rejected poles labelled stable)"""
+    SC = "pyoma2.functions.gen.SC_apply"
+    for cq, method, unc in (classes or CLASSES):
+        ci = prog.cls(cq)
+        cfg = f"{ci.node.name}[method={method},calc_unc={unc}]"
+        runf = prog.find_method(ci, "run")
+        f = rel(prog.mods[runf.mod].path)
+        ti = TaintInterp(prog)
+        res = ti.call_function(runf, [], {}, bound=make_me(prog, ci, cq, method, unc))
+        calls = [(env, node) for q, env, node in ti.call_log if q == SC]
+        if not isinstance(res, TObj) or not calls:
+            run.ob(rule, runf.qual, "labels computed from the final tables", None, "run() / the call of SC_apply could not be evaluated", file=f, config=cfg)
+            continue
+        env, node = calls[-1]
+        sc = prog.functions[SC]
+        pos = astq.params_of(sc.node)[0]
+        for p_, field in zip(pos[:3], ("Fn_poles", "Xi_poles", "Phi_poles")):
+            got = {l for l in labels(env.get(p_)) if l.startswith("hc:")}
+            want = {l for l in labels(res.attrs.get(field)) if l.startswith("hc:")}
+            ok = got == want
+            run.ob(rule, runf.qual, f"SC_apply.{p_} is the table stored as result.{field}", ok,
+                   f"criteria on the labelled table {sorted(x[3:] for x in got)}, on the stored table {sorted(x[3:] for x in want)}" +
+                   ("" if ok else f" - the labels are computed before {sorted(x[3:] for x in want - got)} is applied: poles rejected afterwards keep a stable label ({cfg})"),
+                   witness=f"{sorted(got)}|{sorted(want)}", file=f, node=node, config=cfg)
+
+
 def check(prog, run):
     run.rule("R-reach", "every criterion of the run-parameter defaults reaches every pole table of the result (criteria enabled, all configurations)", 60)
     run.rule("R-same-pattern", "all pole tables of one result carry the same set of criteria (one NaN pattern)", 7)
@@ -141,9 +234,19 @@ def check(prog, run):
     run.rule("R-sense", "keep-conditions: 0 < xi < xi_max, MPC >= mpc_lim, MPD <= mpd_lim, cov < cov_max; applymask keeps values where the mask is true, NaN elsewhere", 6)
     run.rule("R-slots", "every applymask call gets its filtered tables back into the variables they came from, position by position (values of the retained poles unchanged)", 4)
     slots(prog, run)
+    slot_provenance(prog, run, "R-slots")
     run.assume("dependence (taint) analysis: a criterion 'reaches' a table if the table's value depends on a mask computed from that criterion's value; "
                "it is a necessary condition for the criterion to take effect, not a proof that the right poles are removed")
-    for cq, method, unc in CLASSES:
+    classes_rules(prog, run, CLASSES, {"reach": "R-reach", "pattern": "R-same-pattern", "bind": "R-bind"})
+    sense(prog, run)
+    from .. import maskkind
+    maskkind.obligations(prog, run, "R-sense", ("pyoma2.algorithms.ssi", "pyoma2.algorithms.plscf"))
+
+
+def classes_rules(prog, run, classes, rn):
+    """the dependence rules for the given (class, method, calc_unc) configurations; rn maps 'reach' / 'pattern' / 'bind' to the rule
+    name under which the obligations are reported (a missing key switches that family off) - shared with C01 / C05"""
+    for cq, method, unc in classes:
         ci = prog.cls(cq)
         cfg = f"{ci.node.name}[method={method},calc_unc={unc}]"
         rp_cls = class_attr_class(prog, ci, "RunParamCls")
@@ -163,13 +266,15 @@ def check(prog, run):
         me = TObj({"data": data, "fs": T({"fs"}), "dt": T({"fs"}), "run_params": rp, "result": TC(None), "name": TC("a")}, ci)
         res = ti.call_function(runf, [], {}, bound=me)
         if not isinstance(res, TObj):
-            run.ob("R-reach", runf.qual, "result", None, f"run() did not evaluate to a result object ({res!r})"[:160], file=f, config=cfg)
+            run.ob(rn.get("reach") or rn.get("bind"), runf.qual, "result", None, f"run() did not evaluate to a result object ({res!r})"[:160], file=f, config=cfg)
             continue
         present = {}
         for tname in tables:
             v = res.attrs.get(tname)
+            if v is None and "reach" in rn:
+                run.ob(rn["reach"], runf.qual, f"{tname}", False, f"result table {tname} of {res_cls.node.name} is not stored by run() ({cfg})", witness="not stored", file=f, config=cfg)
+                continue
             if v is None:
-                run.ob("R-reach", runf.qual, f"{tname}", False, f"result table {tname} of {res_cls.node.name} is not stored by run() ({cfg})", witness="not stored", file=f, config=cfg)
                 continue
             if isinstance(v, TC) and v.v is None:
                 continue  # table absent in this configuration (e.g. covariances without calc_unc)
@@ -178,34 +283,33 @@ def check(prog, run):
         for k in keys:
             if k == "cov_max" and not has_cov:
                 continue
-            for tname, ls in present.items():
+            for tname, ls in (present.items() if "reach" in rn else ()):
                 ok = f"hc:{k}" in ls
-                run.ob("R-reach", runf.qual, f"{k} -> {tname}", ok,
+                run.ob(rn["reach"], runf.qual, f"{k} -> {tname}", ok,
                        f"criteria reaching {tname}: {sorted(x[3:] for x in ls)}" if ok else
                        f"hc['{k}'] has no effect on {tname}: criteria reaching it are {sorted(x[3:] for x in ls)} ({cfg})",
                        witness=f"missing {k}", file=f, node=runf.node, config=cfg)
         sets = {t: ls for t, ls in present.items()}
-        if sets:
+        if sets and "pattern" in rn:
             ref = max(sets.values(), key=len)
             odd = sorted(t for t, ls in sets.items() if ls != ref)
-            run.ob("R-same-pattern", runf.qual, "tables share one criteria set", not odd,
+            run.ob(rn["pattern"], runf.qual, "tables share one criteria set", not odd,
                    f"{len(sets)} tables, criteria {sorted(x[3:] for x in ref)}" if not odd else f"tables {odd} carry a different criteria set than the others ({cfg})",
                    witness=",".join(odd), file=f, node=runf.node, config=cfg)
         # R-bind from the call log
-        for k, (fq, param) in BIND.items():
+        for k, (fq, param) in (BIND.items() if "bind" in rn else ()):
             if k not in keys or (k == "cov_max" and not has_cov):
                 continue
             calls = [(env, node) for q, env, node in ti.call_log if q == fq]
             if not calls:
-                run.ob("R-bind", runf.qual, f"hc['{k}'] -> {fq.split('.')[-1]}.{param}", False, f"{fq.split('.')[-1]} is never called by run() ({cfg})",
+                run.ob(rn["bind"], runf.qual, f"hc['{k}'] -> {fq.split('.')[-1]}.{param}", False, f"{fq.split('.')[-1]} is never called by run() ({cfg})",
                        witness="not called", file=f, config=cfg)
                 continue
             for env, node in calls:
                 ls = {l for l in labels(env.get(param)) if l.startswith("hc:")}
                 ok = ls == {f"hc:{k}"}
-                run.ob("R-bind", runf.qual, f"hc['{k}'] -> {fq.split('.')[-1]}.{param}", ok,
+                run.ob(rn["bind"], runf.qual, f"hc['{k}'] -> {fq.split('.')[-1]}.{param}", ok,
                        f"{param} <- {sorted(ls)}", witness=f"{param}<-{sorted(ls)}", file=f, node=node, config=cfg)
-    sense(prog, run)
 
 
 def _canon(prog, fi, cmp_node, params):
